@@ -27,6 +27,18 @@ CHECKS = {
              "str.split/strip/int/str(int) modelled explicitly (ASCII blanks and digits) and correspondence-tested.",
         technique="Lean 4 proof over a hand-written parser model + translator-generated formulas + differential correspondence",
         design="§6 C19"),
+    "C20": dict(
+        text="Lean theorems, one per class of invalid input of the statement, about a model of the package's checks over "
+             "tables regenerated from the sources (alias lists and mandatory keys of every *_from_dict, accepted enumerations "
+             "in Python and in the C++ CompareStr chains, grid size / environment map / index range tests, the dimension "
+             "each quantity field demands, unit symbol lists, coarse-graining map rules): op input = error <-> Invalid input "
+             "(or Invalid -> error), and no_cross_entry from index injectivity. Tie: translator groups Validation / IndexPy / "
+             "Network / Units + correspondence (op validate) + oracle on the real code: valid random nested models x one "
+             "injected fault x every level; exhaustive out-of-range index / triple sweep with state compared before/after.",
+        note="Lean kernel + {propext, Classical.choice, Quot.sound}; translator; correspondence harness; the whole-build "
+             "outcome is attributed to the single injected fault (the unfaulted model is first accepted by the real code).",
+        technique="Lean 4 proof over translator-generated validation tables + fault-injection differential correspondence",
+        design="§6 C20"),
 }
 
 ALL = ["C%02d" % i for i in range(1, 21)]
